@@ -988,6 +988,30 @@ fn rotation_grid() -> Vec<Case> {
     v
 }
 
+/// Scripts in which a key that is already in the key table is attached to further roles after the
+/// file was signed (a content change that adds no key): `init; add-key K0 (roles a); add-key K1
+/// (all roles); set-threshold x4 = 1; sign -k K0 K1; add-key Kx (roles b)`, for every a, b over
+/// the four roles and x in {0, 1}, followed by a plain sign again.
+fn regroup_grid() -> Vec<Case> {
+    let palette = palette_of([keys::ED.start, keys::ED.start + 1, keys::EC.start]);
+    let mut v = Vec::new();
+    for a in [1u8, 3, 9] {
+        for b in 1u8..16 {
+            for x in [P0, P1] {
+                let mut steps = vec![Cmd::Init { version: None }, Cmd::AddKey { keys: vec![P0], roles: a }, Cmd::AddKey { keys: vec![P1], roles: 15 }];
+                for r in ROLES {
+                    steps.push(Cmd::SetThreshold { role: r, threshold: 1 });
+                }
+                steps.push(Cmd::Sign { keys: vec![P0, P1], ignore_threshold: false, cross_sign: None });
+                steps.push(Cmd::AddKey { keys: vec![x], roles: b });
+                steps.push(Cmd::Sign { keys: vec![P1], ignore_threshold: false, cross_sign: None });
+                v.push(Case { palette, steps });
+            }
+        }
+    }
+    v
+}
+
 // ------------------------------------------------------------------------------------ interface
 
 pub fn check(ctx: &Ctx) -> Vec<PartReport> {
@@ -1010,6 +1034,16 @@ pub fn check(ctx: &Ctx) -> Vec<PartReport> {
             mode: Mode::Enumerate { cases: grid, complete: true },
             prop: Box::new(move |c: &Case| budgeted(c, known)),
             require: vec![("cross-sign-ok", 30), ("plain-sign-ok", 10), ("sign-failed", 10), ("mutation-after-sign", 72)],
+        },
+    ));
+    out.push(run_part(
+        ctx,
+        PartSpec {
+            name: "regroup-grid",
+            rule: "EXHAUSTIVE over the scripts `init; add-key K0 (roles a); add-key K1 (all roles); set-threshold x4 = 1; sign -k K0 K1; add-key Kx (roles b); sign -k K1` with a in {root, root+snapshot, root+timestamp}, b every non-empty role set, x in {0,1} (90 scripts): a key already in the key table is attached to further roles after the file was signed. Same oracle after every step. Non-trivial: every script; distinct = sequence of (subcommand, exit status, flags, signature count)",
+            mode: Mode::Enumerate { cases: regroup_grid(), complete: true },
+            prop: Box::new(move |c: &Case| budgeted(c, known)),
+            require: vec![],
         },
     ));
     let n = ctx.cases(150, 3_000);
